@@ -94,6 +94,11 @@ def bucket_case(rate, t0q, arrivals, sleeps, max_sleeps=4):
                     starved = True
                     fail = 'limit() did not return after %d sleeps of >= 1 s (rate %s)' % (max_sleeps, rate)
                     break
+                except Exception as e:      # noqa
+                    # the caller that should have been let through (now or after waiting) got an exception instead
+                    attempts.append((clock.q, 2))
+                    fail = 'limit() raised %s for the call at %s s (rate %s)' % (type(e).__name__, Fraction(clock.q, Q), rate)
+                    break
         finally:
             loop.close()
     finally:
